@@ -1,6 +1,9 @@
 #!/bin/sh
-# runs, for every stored seed, the quick checks of the properties anchored in the files it touches; prints exit codes
+# tools/seed_matrix.sh [own|rel]   (default rel)
+# for every stored seed (applied to a scratch copy of /repo/src): "own" runs the quick check of the property the seed breaks
+# (must exit 1); "rel" runs the quick checks of the properties anchored in the files it touches (none may exit 2).
 cd "$(dirname "$0")/.."
+mode=${1:-rel}
 rel() {
   case "$1" in
     C01|C02|C03) echo "C01 C02 C03 C08 C09 C20";;
@@ -16,16 +19,22 @@ rel() {
     C18|C19) echo "C18 C19 C02";;
   esac
 }
+bad=0
 for d in seeded/*/; do
   s=$(basename $d)
+  p=$(echo $s | cut -c1-3)
   tmp=$(mktemp -d /tmp/seedmx.XXXXXX)
   cp -r /repo/src $tmp/src
-  (cd $tmp && patch -p1 -s < "$OLDPWD/$d/patch.diff") || { echo "$s PATCH-FAILED"; rm -rf $tmp; continue; }
+  (cd $tmp && patch -p1 -s < "$OLDPWD/$d/patch.diff") || { echo "$s PATCH-FAILED"; rm -rf $tmp; bad=1; continue; }
   line="$s:"
-  for id in $(rel $s); do
-    VERIF_REPO=$tmp ./check $id quick >/tmp/seedmx.out 2>&1; rc=$?
+  if [ "$mode" = own ]; then ids=$p; else ids=$(rel $p); fi
+  for id in $ids; do
+    VERIF_REPO=$tmp ./check $id quick >$tmp/out 2>&1; rc=$?
     line="$line $id=$rc"
+    [ $rc = 2 ] && { bad=1; tail -3 $tmp/out | cut -c1-300; }
+    [ "$id" = "$p" ] && [ $rc != 1 ] && { bad=1; line="$line(MISSED)"; }
   done
   echo "$line"
   rm -rf $tmp
 done
+exit $bad
